@@ -171,3 +171,35 @@ Theorem C08_replay_model_is_sequential :
   option_map presult (nth_error (rs (run pstep sched s)) g) = Some (Some (nth j seq (inr 0))).
 Proof. exact replay_model_is_sequential. Qed.
 Print Assumptions C08_replay_model_is_sequential.
+
+(* "each with its own data": the context of a call is part of the call.  Template functions
+   are bound to the context of the render that uses them, every time (findFunction); any
+   number of renders, any contexts, any schedule: each render returns what ITS context
+   determines (the spec [cspec] never mentions another render), the shared table is unchanged *)
+Theorem C08_context_functions_reads_only : reads_only (cstep false).
+Proof. exact cstep_reads_only. Qed.
+Print Assumptions C08_context_functions_reads_only.
+
+Theorem C08_context_functions_see_own_context :
+  forall (sched : list nat) (h : cshared) (l : list cstate) (i : nat)
+         (c a : Z) (code : list bytes),
+  nth_error l i = Some (mkC c a (CRun code)) ->
+  length code < count i sched ->
+  option_map cresult (nth_error (rs (run (cstep false) sched (mkSys h l))) i) =
+    Some (Some (cspec (cs_funcs h) c code a))
+  /\ sh (run (cstep false) sched (mkSys h l)) = h.
+Proof. exact ctx_engine_own_context. Qed.
+Print Assumptions C08_context_functions_see_own_context.
+
+(* ... and it is the per-use binding that makes it so: with the bound functions remembered
+   in the shared template set (keyed by the context that used them last) the same statement
+   is false, although every render run one at a time is right *)
+Theorem C08_context_functions_shared_memo_refuted :
+  exists (sched : list nat) (h : cshared) (l : list cstate) (i : nat)
+         (c a : Z) (code : list bytes),
+    nth_error l i = Some (mkC c a (CRun code)) /\
+    length code < count i sched /\
+    option_map cresult (nth_error (rs (run (cstep true) sched (mkSys h l))) i) <>
+      Some (Some (cspec (cs_funcs h) c code a)).
+Proof. exact ctx_memo_refuted. Qed.
+Print Assumptions C08_context_functions_shared_memo_refuted.
